@@ -2,7 +2,7 @@
 
 Real code: lena.structures.histogram (scale, add, get_nevents, set_nevents, _update_context),
 lena.structures.hist_functions (integral, iter_bins, iter_bins_with_edges, iter_cells, hist_to_graph),
-lena.structures.graph (__init__, _parse_error_names, scale, rows), lena.output.ToCSV / hist1d_to_csv / hist2d_to_csv,
+lena.structures.graph (__init__, _parse_error_names, scale, rows, __add__), lena.output.ToCSV / hist1d_to_csv / hist2d_to_csv,
 lena.flow.scale_to / GroupScale, lena.structures.ScaleTo.
 Model: lean/LenaModel/Model/C12.lean (+ NArr.lean), theorems lean/LenaModel/Props/C12.lean.
 
@@ -72,6 +72,8 @@ THEOREMS = [
     "Lena.C12.hist_to_graph_defined",
     "Lena.C12.csv_one_row_per_cell_1d",
     "Lena.C12.csv_one_row_per_cell_2d",
+    "Lena.C12.graph_add_spec",
+    "Lena.C12.graph_add_error_fields",
 ]
 TRUSTED = [
     "Lean 4.33.0 kernel; axioms limited to propext, Classical.choice, Quot.sound (audited by #print axioms on every run)",
@@ -101,7 +103,10 @@ RULE = ("cases per op over histograms of every shape 1..4 (1-dim), 1..3 x 1..3 (
         "ambiguous, duplicates, wrong count, string forms; scale(other) for unknown/zero/non-zero scale), csv (ToCSV.run "
         "for 1-3-dim histograms and graphs x duplicate_last_bin element/context settings x to_csv flag x header x "
         "separator x row_end/last_row_end; the text is parsed back), scale_to / GroupScale / ScaleTo over groups of "
-        "histograms, graphs and objects without scale. Non-trivial: the structure has at least two cells/points and "
+        "histograms, graphs and objects without scale, scale_get (scale(recompute) with fresh, stale and missing stored "
+        "scale), graph_add (graph + graph with and without error fields, equal and unequal numbers of points), mk_hist "
+        "(valid and invalid constructor arguments). About 15 % of the histograms have their edges as tuples (nested "
+        "tuples or a list of tuples). Non-trivial: the structure has at least two cells/points and "
         "the operation returned a non-empty result, or an exception was raised.")
 CASE_TIMEOUT = 10
 
@@ -580,6 +585,31 @@ def graph_case(rng, names, npts=None, kind=None, form=None):
     return c
 
 
+def graph_add_case(rng):
+    dim = rng.randint(1, 3)
+    coords_names = COORD_NAMES[:dim]
+    errs_a = rng.choice([[], [], [], [f"error_{coords_names[-1]}"], [f"error_{coords_names[0]}_low"]])
+    errs_b = rng.choice([[], [], [f"error_{coords_names[-1]}_high"]])
+    n = rng.randint(0, 4)
+    a = graph_case(rng, coords_names + errs_a, npts=n, form="t")["g"]
+    r = rng.random()
+    nb = n if r < 0.8 else (n + 1 if r < 0.9 else max(0, n - 1))
+    b = graph_case(rng, coords_names + errs_b, npts=n, form="t")["g"]
+    if nb != n:
+        # only the last coordinate of `other` may differ in length (the other lengths are asserted)
+        col = b["coords"][dim - 1]
+        b["coords"][dim - 1] = (col + ["7/1"]) if nb > n else col[:-1]
+        if len(b["coords"]) > 1:
+            # graph.__init__ requires equal lengths: make all columns but the compared ones follow
+            for k in range(len(b["coords"])):
+                if k >= dim - 1:
+                    c = b["coords"][k]
+                    b["coords"][k] = (c + ["7/1"])[:nb] if nb > n else c[:nb]
+            if dim > 1:
+                return graph_add_case(rng)      # cannot keep the asserted lengths and a valid graph
+    return {"op": "graph_add", "a": a, "b": b}
+
+
 def csv_case(rng, shape):
     hc = gen_hist(rng, shape)
     return {"op": "csv", "h": hc, "to_csv": rng.random() > 0.08, "ctx_dup": rng.choice([None, None, True, False]),
@@ -738,6 +768,8 @@ def gen_cases(ctx):
                       "last_row_end": rng.choice(["", "\n"])})
     for _ in range(60000 if thorough else 1200):
         cases.append(scale_to_case(rng))
+    for _ in range(10000 if thorough else 300):
+        cases.append(graph_add_case(rng))
     for _ in range(15000 if thorough else 300):
         cases.append(scale_to_call_case(rng))
     for _ in range(15000 if thorough else 300):
@@ -760,6 +792,16 @@ def gen_cases(ctx):
                 cases.append(csv_case(rng, shape))
     ctx.exhaustive = False
     return cases
+
+
+def search_cases(ctx):
+    """cases for the failing-input search after a broken proof / correspondence: the quick generator with the
+    search context's seed (five further seeds are tried by common.run_check)"""
+    class _C:
+        pass
+    c = _C()
+    c.tier, c.rng, c.seed = "quick", ctx.rng, ctx.seed
+    return gen_cases(c)
 
 
 _NAMINGS = None
@@ -955,6 +997,20 @@ def run_impl(case):
             res["after_err"] = graph_state(g)
         return res
 
+    if op == "graph_add":
+        a, b = build_graph(case["a"]), build_graph(case["b"])
+        sa, sb = graph_state(a), graph_state(b)
+        try:
+            c = a + b
+        except Exception as ex:
+            res = _exc(ex)
+        else:
+            res = {"g": graph_state(c), "rows": [[enc(x) for x in row] for row in c.rows()],
+                   "alias": bool(_ids(c.coords, set()) & (_ids(a.coords, set()) | _ids(b.coords, set()))),
+                   "is_graph": isinstance(c, lena.structures.graph)}
+        res["same"] = graph_state(a) == sa and graph_state(b) == sb
+        return res
+
     if op in ("csv", "csv_graph"):
         el_kw = {"separator": case["sep"], "header": case["header"], "row_end": case["row_end"],
                  "last_row_end": case["last_row_end"]}
@@ -1112,6 +1168,8 @@ def model_requests(case):
                  "fields": case["fields"], "scale": case["scale"]}]
     if op == "graph":
         return [{"op": "graph", "g": model_graph(case["g"]), "other": case["other"] if case["exact"] else None}]
+    if op == "graph_add":
+        return [{"op": "graph_add", "a": model_graph(case["a"]), "b": model_graph(case["b"])}]
     if op == "csv":
         return [{"op": "csv", "h": model_hist(case["h"]), "to_csv": case["to_csv"], "ctx_dup": case["ctx_dup"],
                  "dup": case["dup"]}]
@@ -1222,6 +1280,11 @@ def compare(case, res, replies):
         if "e" in a or "e" in b:
             return diff("exception of scale(other)", a.get("e"), b.get("e"))
         return diff("graph after scale(other)", norm_graph(a), norm_graph(b))
+    if op == "graph_add":
+        if "e" in res or "e" in m:
+            return diff("exception", res.get("e"), m.get("e"))
+        return diff("sum", norm_graph(res["g"]), norm_graph(m["g"])) or \
+            diff("rows", _norm_rows(res["rows"]), _norm_rows(m["rows"]))
     if op in ("csv", "csv_graph"):
         if "e" in res or "e" in m:
             return diff("exception", res.get("e"), m.get("e"))
@@ -1514,6 +1577,29 @@ def oracle(case, res):
             return "scale(other) changed the field names or the dimension"
         return None
 
+    if op == "graph_add":
+        a, b = case["a"], case["b"]
+        if not res["same"]:
+            return "graph addition modified an operand"
+        na, nb_ = names_tuple(a["names"]), names_tuple(b["names"])
+        dim = ref_parse_names(list(na))[0]
+        if len(na) != dim or len(b["coords"][dim - 1]) != len(a["coords"][dim - 1]):
+            return None       # error fields / different numbers of points: nothing is stated
+        if "e" in res:
+            return f"adding graphs {na} and {nb_} raised {res['e']}"
+        if res["alias"] or not res["is_graph"]:
+            return "the sum of two graphs must be a new graph"
+        g = res["g"]
+        want = [[norm(x) for x in col] for col in a["coords"][:dim - 1]] + \
+            [[enc(q(x) + q(y)) for x, y in zip(a["coords"][dim - 1], b["coords"][dim - 1])]]
+        if [[_nq(x) for x in col] for col in g["coords"]] != want:
+            return f"sum of graphs has coords {g['coords']}, expected {want}"
+        sa_, sb_ = a["scale"], b["scale"]
+        wsc = None if (sa_ is None or sb_ is None) else q(sa_) + q(sb_)
+        if (g["scale"] is None) != (wsc is None) or (wsc is not None and q(g["scale"]) != wsc):
+            return f"scale of the sum is {g['scale']}, expected {wsc}"
+        return None
+
     if op == "csv":
         hc = case["h"]
         dims = shape_of(hc)
@@ -1688,6 +1774,8 @@ def nontrivial(case, res):
         return len(list(flat_nested(case["h"]["bins"]))) >= 2 and not res.get("unchanged", False)
     if op == "add":
         return len(list(flat_nested(case["a"]["bins"]))) >= 2
+    if op == "graph_add":
+        return len(case["a"]["coords"][0]) >= 2
     if op in ("graph", "csv_graph"):
         g = case["g"]
         return bool(g["coords"]) and len(g["coords"][0]) >= 2 and not res.get("unchanged", False)
@@ -1725,6 +1813,8 @@ def classify(case, res):
     if op == "graph" and "g" in res:
         out.append(f"graph:dim={res['g']['dim']}:errors={len(res['g']['parsed'])}")
         out.append("graph:" + ("rescaled" if "e" not in res["scaled"] else "scale raises " + res["scaled"]["e"]))
+    if op == "graph_add":
+        out.append("graph_add:" + ("ok" if "g" in res else res.get("e", "?")))
     if op == "csv":
         out.append("csv:" + ("unchanged" if res.get("unchanged") else f"dup={case['dup']}/ctx={case['ctx_dup']}"))
     if op == "scale_to":
@@ -1783,9 +1873,16 @@ def shrink(case):
                         continue
                     c["b"] = b2
                 if op == "hscale" and case.get("exact"):
-                    continue        # the target depends on the integral
+                    # keep the ratio target / old scale
+                    i_old, i_new = ref_integral(case["h"]), ref_integral(h2)
+                    r = q(case["other"]) / i_old if i_old != 0 else q(case["other"])
+                    c["other"] = enc(r * i_new if i_new != 0 else r)
                 if op == "nevents" and case.get("exact"):
-                    continue
+                    def tot(hc):
+                        return sum(v for _, v, _ in ref_cells(hc)) + (q(hc["nout"]) if case["incl"] else 0)
+                    t_old, t_new = tot(case["h"]), tot(h2)
+                    r = q(case["n"]) / t_old if t_old != 0 else q(case["n"])
+                    c["n"] = enc(r * t_new if t_new != 0 else r)
                 yield c
     if op == "scale_to" and len(case["group"]) > 1:
         for i in range(len(case["group"])):
